@@ -51,7 +51,7 @@ def main():
     s = open(p).read()
     a = s.index("### 7.5 ")
     b = s.index("## 8. Measured cost")
-    body = ("### 7.5 Seeded changes from independent sub-agents (nine waves of 20, 180 changes)\n\n"
+    body = ("### 7.5 Seeded changes from independent sub-agents (ten waves of 20, 200 changes)\n\n"
             "Every change below compiles, leaves the repository suite at its baseline, and comes with a demonstration that "
             "passes without and fails with it (`seeded/<name>/`). Waves 2-5 were told what the earlier waves had done "
             "and asked for a different mechanism in a different clause of the property (themes: section 7.4).\n\n" + seeded_table() +
